@@ -141,7 +141,7 @@ theorem create_licensed (s : Mgr) (dh vi : Nat) (name : List Nat) (sfn : Bytes) 
     ⟨hs, hg, hhint, hmir⟩ hfind hdir
   refine ⟨r, s', v', h1, h2, h3, h4.ok, h4.geom, h4.hint, h4.mirror, h5, ?_⟩
   cases hout with
-  | slot en hb ho hal lic =>
+  | slot en hb ho hal _ lic =>
     rcases hres with ⟨en', he, hr, hf⟩ | ⟨he, _⟩
     · cases he
       exact .inl ⟨en, hr, hf, hb, ho, hal, (LicD.toWrites (lic _ (List.mem_singleton.2 rfl))).1⟩
@@ -179,9 +179,9 @@ theorem mkdir_licensed (s : Mgr) (dh vi : Nat) (name : List Nat) (sfn : Bytes) (
   · exact .inl ⟨s', h1, newWritesM_nil h2, h3⟩
   · refine .inr ⟨cn, r, s', v', h1, h2, h3, h4.ok, h4.geom, h4.hint, h4.mirror, h5, h6, h7, ?_⟩
     cases hout with
-    | slot b off hb ho hal lic =>
+    | slot b off hb ho hal _ lic =>
       exact .inl ⟨b, off, rfl, hb, ho, hal, (LicD.toWrites (lic _ List.mem_cons_self List.mem_cons_self List.mem_cons_self)).1⟩
-    | grown last c hk hl hr lic =>
+    | grown last c hk hl hr _ lic =>
       exact .inr (.inl ⟨last, c, rfl, hk, hl, hr, (LicD.toWrites (lic _ List.mem_cons_self List.mem_cons_self
         (List.mem_cons_of_mem _ List.mem_cons_self) (List.mem_cons_of_mem _ (List.mem_cons_of_mem _ List.mem_cons_self))
         (List.mem_cons_of_mem _ List.mem_cons_self))).1⟩)
